@@ -1,7 +1,7 @@
 import json, os
 
 SPEC = {
-    "lean_modules": ["SemaModel.C04.Props"],
+    "lean_modules": ["SemaModel.C04.Props", "SemaModel.C04.Tie"],
     "lean_dirs": ["SemaModel/C04", "SemaModel/C08"],
     "harness": "c04",
     "harness_args": {
@@ -22,6 +22,8 @@ SPEC = {
         "Sema.C04.C04_exact", "Sema.C04.C04_candidates", "Sema.C04.C04_no_closer_left_out", "Sema.C04.C04_sorted_prefix",
         "Sema.C04.C04_nodup", "Sema.C04.C04_order_indep", "Sema.C04.C04_hybrid", "Sema.C04.C04_enumerable",
         "Sema.C04.C04_forEach_complete", "Sema.C04.C04_warm_cold",
+        # tie theorems (SemaModel/C04/Tie.lean, notes/T1ext.md section 7): step / search = the callback fragment of IndexFlat.Search generated from flat.go
+        "Sema.C04.C04_tie_step", "Sema.C04.C04_tie_search",
     ],
     "trusted_base": [
         "tools/facts_c04 (go/ast pattern extraction of the Storable methods; an unrecognised shape is a hard error) and the plan interpreter of C04/Model.lean",
